@@ -5,7 +5,8 @@ ALL4 = ["default", "noavx2", "purego", "force32bit"]
 B3 = ["default", "purego", "force32bit"]
 # thorough tier: also a real 32-bit target (GOARCH=386, see CONFIGS in ./check)
 ALL4T = {"quick": ALL4, "thorough": ALL4 + ["386"]}
-ALL4Q = {"quick": ALL4 + ["386"], "thorough": ALL4 + ["386"]}
+# 386x64: the portable 64-bit limb code on a target with 32-bit int/uint (force64bit tag on GOARCH=386)
+ALL4Q = {"quick": ALL4 + ["386", "386x64"], "thorough": ALL4 + ["386", "386x64"]}
 
 def T(quick, thorough, **kw):
     d = {"quick": quick, "thorough": thorough}
